@@ -18,13 +18,20 @@ RULE = (
     "None entries, fully given} drawn around the column maxima / minima; for int64 matrices the supplied bounds are NON-INTEGER "
     "(k+1/2, k+1/4, k+1/8, k+u), mostly strictly between the criterion's min and max, and re-drawn until a supplied bound has a "
     "non-zero dual value in some stage (binding); at least 20 % of the cases are int64 + partially given b + fractional binding "
-    "bound. b reaches SIMUS and the model exactly as the user wrote it (None / python floats; rationals of those floats). Per case: (i) every PuLP problem object "
+    "bound. On top of these: DUPLICATED CRITERIA - two criteria with identical values for every alternative (equal columns): both "
+    "maximised with automatic bounds, both maximised with a user bound strictly below the column maximum on one of them, both "
+    "minimised (automatic bounds or a user bound above the minimum on one), one maximised and one minimised; re-drawn until every "
+    "stage is feasible and bounded and (same-sense twins) the twin's constraint is NEEDED in the stage optimising the other twin "
+    "(without it the second solver's optimum moves or the stage is unbounded); and all-maximise problems with a user bound of 0 on "
+    "one criterion (every other stage is the zero vector). At least 30 % of the cases have an empty stage (exactly one minimise "
+    "criterion, or a zero bound). b reaches SIMUS and the model exactly as the user wrote it (None / python floats; rationals of those floats). Per case: (i) every PuLP problem object "
     "(sense, objective, each constraint's coefficients / sense / rhs, variable bounds) against the Lean model's stageLP, exactly; "
     "(ii) lp_values[i] against the value of the variable named x{i} read from the solved problem; (iii) every stage solution "
     "checked for feasibility (exact rational arithmetic) and optimality through the PROVED certificate checker (Lean certCheck, "
     "exact rationals) with a dual vector obtained from scipy/HiGHS as an untrusted hint, eps = delta = 1e-6*scale; (iv) stage rows, "
-    "both scores, tita's, dominance table and ranking against an independent Fraction evaluation of the SIMUS formulas on the "
-    "implementation's own lp_values, and against the Lean model (simus-post). Cases in which some stage program is infeasible / "
+    "both scores, tita's, dominance table, the per-criterion dominance tables (dominance_by_criteria: one table per criterion, in criterion "
+    "order, table k entry (a, b) = max(row_k[a] - row_k[b], 0)) and ranking against an independent Fraction evaluation of the SIMUS formulas on the "
+    "implementation's own lp_values, and against the Lean model (simus-post; domByCrit of stage k through the one-stage simus-post of stage k). Cases in which some stage program is infeasible / "
     "not reported Optimal are outside the property's quantifier: skipped and counted. Non-trivial: every stage Optimal, and at "
     "least one stage with a non-zero solution."
 )
@@ -113,7 +120,15 @@ def binding_given(case):
     return out
 
 
-def one_case(rng, m=None, n=None, family=None, bmode=None, binding=None):
+def _matrix(rng, m, n, family):
+    if family == "int":
+        scales = [rng.choice([4, 9, 20, 100, 1000]) for _ in range(n)]
+    else:
+        scales = [10 ** rng.uniform(-1, 3) for _ in range(n)]
+    return [[_value(rng, family, scales[j]) for j in range(n)] for _ in range(m)]
+
+
+def one_case(rng, m=None, n=None, family=None, bmode=None, binding=None, n_min=None):
     if m is None:
         m = rng.randint(11, 30) if rng.random() < 0.5 else rng.randint(2, 10)
     if n is None:
@@ -125,14 +140,11 @@ def one_case(rng, m=None, n=None, family=None, bmode=None, binding=None):
     if binding is None:
         # whole-number matrices: the supplied (fractional) bounds are re-drawn until one of them is binding in some stage
         binding = family == "int" and bmode != "none"
-    n_min = rng.randrange(0, n - 1)
+    if n_min is None:
+        n_min = rng.randrange(0, n - 1)
     objs = [-1] * n_min + [1] * (n - n_min)
     rng.shuffle(objs)
-    if family == "int":
-        scales = [rng.choice([4, 9, 20, 100, 1000]) for _ in range(n)]
-    else:
-        scales = [10 ** rng.uniform(-1, 3) for _ in range(n)]
-    mat = [[_value(rng, family, scales[j]) for j in range(n)] for _ in range(m)]
+    mat = _matrix(rng, m, n, family)
     case = {"kind": "simus", "matrix": mat, "objectives": objs, "b": None, "rank_by": rng.choice([1, 2]), "family": family, "bmode": bmode,
             "dtype": "int64" if family == "int" else "float64"}
     for _ in range(12 if binding else 1):
@@ -148,28 +160,158 @@ def _is_int_partial(c):
             and any(v is not None and v != int(v) for v in c["b"]))
 
 
+# ---- duplicated criteria: two criteria with IDENTICAL values for every alternative
+
+
+def _opt(lp):
+    """(status, optimum) of a stage program according to the second solver; a program without constraints is
+    unbounded when maximised (positive coefficients) and 0 when minimised"""
+    if not lp["constraints"]:
+        return (3, None) if lp["sense"] == "max" else (0, 0.0)
+    h = highs(lp)
+    return h["status"], h.get("fun")
+
+
+def needed_constraints(case, pairs):
+    """those (stage z, criterion k) of `pairs` for which the constraint of criterion k is NEEDED in stage z: without it the
+    stage program stops being bounded or its optimum moves (second solver).  None when some stage program of the case is
+    infeasible / unbounded (outside the quantifier)."""
+    n = len(case["objectives"])
+    full = [_opt(oracle_lp(case, z)) for z in range(n)]
+    if any(st != 0 for st, _ in full):
+        return None
+    out = []
+    for z, k in pairs:
+        lp = oracle_lp(case, z)
+        cons = [c for c in lp["constraints"] if c["crit"] != k]
+        st, fun = _opt(dict(lp, constraints=cons))
+        ref = full[z][1]
+        if st != 0 or abs(fun - ref) > 1e-6 * max(1.0, abs(ref)):
+            out.append((z, k))
+    return out
+
+
+DUP_MODES = ["max-max", "max-max-tight", "min-min", "opposite"]
+
+
+def dup_case(rng, mode=None, m=None, family=None):
+    """criteria j and k have equal columns.  max-max: both maximised, automatic bound on both; max-max-tight: both maximised,
+    a user bound strictly below the column maximum on one of them (None on the twin); min-min: both minimised (automatic
+    bounds, or a user bound above the column minimum on one of them); opposite: one maximised, one minimised.  Re-drawn until
+    every stage program is feasible and bounded and - except for opposite senses, where a twin's bound cannot be binding in
+    the other twin's stage - the twin's constraint is needed in the stage that optimises the other twin."""
+    if mode is None:
+        mode = rng.choice(DUP_MODES)
+    case = None
+    for _ in range(12):
+        mm = m if m is not None else (rng.randint(11, 30) if rng.random() < 0.5 else rng.randint(2, 10))
+        fam = family or rng.choice(["dyadic", "float", "float", "int"])
+        n = rng.randint({"max-max": 2, "max-max-tight": 2, "min-min": 4, "opposite": 3}[mode], 5)
+        if mode in ("max-max", "max-max-tight"):
+            n_min = rng.randrange(0, n - 1)
+            want = (1, 1)
+        elif mode == "min-min":
+            n_min = rng.randint(2, n - 2)
+            want = (-1, -1)
+        else:
+            n_min = rng.randint(1, n - 2)
+            want = rng.choice([(1, -1), (-1, 1)])
+        objs = [-1] * n_min + [1] * (n - n_min)
+        rng.shuffle(objs)
+        j = rng.choice([i for i in range(n) if objs[i] == want[0]])
+        k = rng.choice([i for i in range(n) if objs[i] == want[1] and i != j])
+        mat = _matrix(rng, mm, n, fam)
+        for row in mat:
+            row[k] = row[j]
+        col = [row[j] for row in mat]
+        bmode = rng.choice(["none", "partial"]) if mode != "opposite" else rng.choice(["none", "partial", "full"])
+        if mode == "max-max-tight":
+            bmode = rng.choice(["partial", "partial", "full"])
+        b = _draw_b(rng, mat, objs, fam, bmode)
+        if b is not None and mode != "opposite":
+            if mode != "max-max-tight" or bmode == "partial":
+                b[j] = None
+            b[k] = None
+            if mode == "max-max-tight" or (mode == "min-min" and rng.random() < 0.5):
+                lo, hi = min(col), max(col)
+                if fam == "int":
+                    v = float(rng.randint(lo, max(lo, hi - 1)) + rng.choice(_FRACS)) if mode == "max-max-tight" else float(lo + rng.choice(_FRACS))
+                elif mode == "max-max-tight":
+                    v = hi * rng.choice([0.5, 0.75, rng.uniform(0.3, 0.95)])
+                else:
+                    v = lo * rng.choice([1.25, 1.5, rng.uniform(1.05, 2.0)])
+                b[k] = float(v)
+            if all(v is None for v in b):
+                b, bmode = None, "none"
+        case = {"kind": "simus", "matrix": mat, "objectives": objs, "b": b, "rank_by": rng.choice([1, 2]), "family": fam, "bmode": bmode,
+                "dtype": "int64" if fam == "int" else "float64", "dup": [j, k], "dupmode": mode}
+        need = needed_constraints(case, [(j, k), (k, j)])
+        case["dup_needed"] = bool(need)
+        if need or (mode == "opposite" and need is not None):
+            break
+    return case
+
+
+def zero_b_case(rng, m=None):
+    """a user bound of 0 on a maximise criterion k (all criteria maximised: with a minimise criterion the other stages would
+    be infeasible): every stage but k's has the zero vector as its only feasible point, its stage row is all zero"""
+    case = one_case(rng, m=m, n_min=0, bmode=rng.choice(["partial", "partial", "full"]), binding=False)
+    k = rng.randrange(len(case["objectives"]))
+    case["b"][k] = 0.0
+    case["zero_b"] = k
+    return case
+
+
+def _has_empty_stage(c):
+    """problems with a stage whose only feasible/optimal point is the zero vector: exactly one minimise criterion (its stage
+    has only upper bounds left), or a user bound of 0 on a maximise criterion"""
+    return c["objectives"].count(-1) == 1 or "zero_b" in c
+
+
+def _special(c):
+    return "dup" in c or "zero_b" in c
+
+
 def gen(ctx):
     rng = ctx.rng
     N = ctx.n(40, 600)
     cases = [one_case(rng) for _ in range(N)]
+    base = list(range(N))
+    # duplicated criterion columns, every mode in turn; a user bound of 0 on a maximise criterion
+    for i in range(ctx.n(16, 160)):
+        cases.append(dup_case(rng, mode=DUP_MODES[i % len(DUP_MODES)]))
+    for _ in range(ctx.n(4, 40)):
+        cases.append(zero_b_case(rng))
+    # quota: at least 30 % of the cases have an empty stage (exactly one minimise criterion / zero bound)
+    tries = 0
+    while sum(1 for c in cases if _has_empty_stage(c)) < 0.3 * len(cases) and tries < 10 * N:
+        tries += 1
+        i = rng.choice(base)
+        if _has_empty_stage(cases[i]):
+            continue
+        cases[i] = one_case(rng, m=len(cases[i]["matrix"]), n=rng.randint(3, 5), n_min=1)
     # the quota of the property's quantifier: at least 40 % above ten alternatives
     while sum(1 for c in cases if len(c["matrix"]) > 10) < 0.4 * len(cases):
-        cases[rng.randrange(len(cases))] = one_case(rng, m=rng.randint(11, 30))
+        i = rng.choice(base)
+        keep = _has_empty_stage(cases[i])
+        cases[i] = one_case(rng, m=rng.randint(11, 30), **({"n": rng.randint(3, 5), "n_min": 1} if keep else {}))
     # quota: at least 20 % int64 matrices with a partially given b whose specified entries are non-integer and binding
-    # (replacements keep the replaced case's number of alternatives, so the quota above is preserved)
+    # (replacements keep the replaced case's number of alternatives and its empty stage, so the quotas above are preserved)
     tries = 0
     while sum(1 for c in cases if _is_int_partial(c) and binding_given(c)) < 0.2 * len(cases) and tries < 10 * N:
         tries += 1
-        i = rng.randrange(len(cases))
+        i = rng.choice(base)
         if _is_int_partial(cases[i]):
             continue
-        cases[i] = one_case(rng, m=len(cases[i]["matrix"]), family="int", bmode="partial")
+        keep = _has_empty_stage(cases[i])
+        cases[i] = one_case(rng, m=len(cases[i]["matrix"]), family="int", bmode="partial", **({"n": rng.randint(3, 5), "n_min": 1} if keep else {}))
     return cases
 
 
 def search_gen(ctx):
     rng = ctx.rng
-    return [one_case(rng) for _ in range(120)]
+    return ([one_case(rng) for _ in range(120)] + [dup_case(rng, mode=DUP_MODES[i % len(DUP_MODES)]) for i in range(48)]
+            + [zero_b_case(rng) for _ in range(12)] + [one_case(rng, n=rng.randint(3, 5), n_min=1) for _ in range(20)])
 
 
 # ----------------------------------------------------------------------------- the property's own LP (Python oracle)
@@ -284,6 +426,8 @@ def observe(case):
             })
         for k in ("stages_results", "method_1_score", "method_2_score", "tita_j_p", "tita_j_d", "dominance"):
             o[k] = np.asarray(e_[k], dtype=float).tolist()
+        # one dominance table per criterion / stage, in criterion order (kept as a list of tables: its length is observed)
+        o["dominance_by_criteria"] = [np.asarray(t, dtype=float).tolist() for t in e_["dominance_by_criteria"]]
         o["rank"] = [int(r) for r in res.rank_]
         o["rank_by"] = int(e_.rank_by)
         return o
@@ -338,6 +482,10 @@ def requests(case, obs):
         reqs.append({"op": "rank", "scores": C.rats(score), "reverse": True})
     else:
         reqs.append({"op": "rank", "scores": [], "reverse": True})
+    # the model's domByCrit of stage z: simus-post of the one-stage problem made of stage z alone (its `dominance` is the sum
+    # over that single stage of domByCrit (stageRows z))
+    for z in range(n):
+        reqs.append({"op": "simus-post", "lp_values": [C.rats(obs["stages"][z]["values"])], "rank_by": case["rank_by"]})
     for z in range(n):
         lp = oracle_lp(case, z)
         hint = obs["hints"][z]
@@ -368,7 +516,10 @@ def simus_exact(values):
     tp = [sum(dom[a][b] for b in range(m)) for a in range(m)]
     td = [sum(dom[a][b] for a in range(m)) for b in range(m)]
     m2 = [tp[j] - td[j] for j in range(m)]
-    return {"stages_results": rows, "method_1_score": m1, "method_2_score": m2, "tita_j_p": tp, "tita_j_d": td, "dominance": dom}
+    # one table per criterion k, entry (a, b): how much stage row k credits a above b, never negative
+    dbc = [[[max(rows[z][a] - rows[z][b], Fraction(0)) for b in range(m)] for a in range(m)] for z in range(n)]
+    return {"stages_results": rows, "method_1_score": m1, "method_2_score": m2, "tita_j_p": tp, "tita_j_d": td, "dominance": dom,
+            "dominance_by_criteria": dbc}
 
 
 def dense_rank_desc(xs):
@@ -451,7 +602,7 @@ def judge(case, obs, replies):
         corr("model reportedOrder is not the identity", list(range(m)), order.get("order"))
 
     # ---- (iii) PROPERTY: every stage is feasible and optimal for the program of the property text
-    certs = replies[4:]
+    certs = replies[4 + n:]
     ci = 0
     for z in range(n):
         lp = oracle_lp(case, z)
@@ -514,6 +665,23 @@ def judge(case, obs, replies):
         if bad is not None:
             prop(f"{key} does not follow the SIMUS formula from the stages' lp_values",
                  {"index": bad, "exact": float(exact[bad]) if bad >= 0 else len(exact)}, impl[bad] if bad >= 0 else len(impl))
+    # the per-criterion dominance tables: one per criterion, in criterion order, table k from stage row k
+    dbc = obs["dominance_by_criteria"]
+    if len(dbc) != n:
+        prop("dominance_by_criteria does not hold one dominance table per criterion", n, len(dbc))
+    else:
+        tol = F(1e-9)
+        for k in range(n):
+            t, exact = dbc[k], ex["dominance_by_criteria"][k]
+            if len(t) != m or any(len(r) != m for r in t):
+                prop(f"dominance_by_criteria[{k}] is not an alternatives x alternatives table", [m, m], [len(t), sorted(set(len(r) for r in t))])
+                break
+            bad = next(((a, b) for a in range(m) for b in range(m) if not np.isfinite(t[a][b]) or abs(F(t[a][b]) - exact[a][b]) > tol), None)
+            if bad is not None:
+                a, b = bad
+                prop(f"dominance_by_criteria[{k}] is not the dominance table of stage row {k} (max(row[a] - row[b], 0))",
+                     {"a": a, "b": b, "exact": float(exact[a][b]), "stage row": [float(v) for v in ex["stages_results"][k]][:8]}, t[a][b])
+                break
     skey = "method_1_score" if case["rank_by"] == 1 else "method_2_score"
     if obs["rank_by"] != case["rank_by"]:
         prop("rank_by reported in the result differs from the configuration", case["rank_by"], obs["rank_by"])
@@ -547,6 +715,20 @@ def judge(case, obs, replies):
             corr(f"{key}, model vs implementation", [float(v) for v in mvf[:6]], impl[:6])
         if mvf != _flat(ex[key]):
             corr(f"{key}, model vs python oracle (exact)", None, None)
+    # domByCrit of the model, criterion by criterion (one-stage simus-post requests)
+    if len(dbc) != n:
+        corr("dominance_by_criteria: number of tables, model vs implementation", n, len(dbc))
+    else:
+        for k in range(n):
+            mv = replies[4 + k].get("dominance")
+            if mv is None:
+                corr(f"model has no dominance table for criterion {k}", None, replies[4 + k])
+                continue
+            mvf, impl = [C.frac(v) for v in _flat(mv)], _flat(dbc[k])
+            if len(mvf) != len(impl) or any((not np.isfinite(a)) or abs(F(a) - b) > F(1e-9) for a, b in zip(impl, mvf)):
+                corr(f"dominance_by_criteria[{k}], model (domByCrit of stage row {k}) vs implementation", [float(v) for v in mvf[:6]], impl[:6])
+            if mvf != _flat(ex["dominance_by_criteria"][k]):
+                corr(f"dominance_by_criteria[{k}], model vs python oracle (exact)", None, None)
     mr = post.get("rank")
     if mr is None or len(mr) != m:
         corr("rank, model", m, mr)
@@ -570,6 +752,14 @@ def tags(case, obs):
     t = ["alts:" + (">10" if m > 10 else "<=10"), "crits:%d" % n, "rank_by:%d" % case["rank_by"], "b:" + case.get("bmode", "?"),
          "family:" + case.get("family", "?"), "objs:" + ("all-max" if all(x == 1 for x in case["objectives"]) else "mixed"),
          "dm-dtype:" + "/".join(obs.get("dm_dtypes", ["?"]))]
+    if "dup" in case:
+        t.append("dup-columns:" + case["dupmode"])
+        if case.get("dup_needed"):
+            t.append("dup-columns:" + case["dupmode"] + ":twin-constraint-needed")
+    if "zero_b" in case:
+        t.append("zero-bound-on-max-criterion")
+    if case["objectives"].count(-1) == 1:
+        t.append("exactly-one-min")
     if _is_int_partial(case):
         t.append("int64+partial-b+fractional-bound")
         if _in_domain(obs) and any(case["b"][con["crit"]] is not None and case["b"][con["crit"]] != int(case["b"][con["crit"]]) and abs(y) > 1e-9
